@@ -64,8 +64,10 @@ def jobs(tier, seed):
                 elif k == 3:
                     cfgs += [('one', None)]
                 out.append({'k': k, 'mask': mask, 'pres': pres, 'cfgs': cfgs, 'tier': tier, 'seed': seed})
+    A = S.ATTRS
+    # three 3-cliques in a strip (separators of two attributes; the outer cliques overlap in one attribute only)
+    out.append({'k': 5, 'cliques': [(A[0], A[1], A[2]), (A[1], A[2], A[3]), (A[2], A[3], A[4])], 'name': 'strip5', 'cfgs': [('main', None)], 'tier': tier, 'seed': seed})
     if tier == 'thorough':
-        A = S.ATTRS
         for name, cl in [('chain5', [(A[i], A[i + 1]) for i in range(4)]), ('star5', [(A[0], A[i]) for i in range(1, 5)]),
                          ('cycle5', [(A[i], A[(i + 1) % 5]) for i in range(5)])]:
             out.append({'k': 5, 'cliques': cl, 'name': name, 'cfgs': [('main', None)], 'tier': tier, 'seed': seed})
@@ -84,6 +86,8 @@ def matrices_menu(sizes, kind, rng):
             out.append(np.ones((1, n)))
         elif kd == 'prefix':
             out.append(np.tril(np.ones((n, n))))
+        elif kd == 'int':
+            out.append(np.tril(np.ones((n, n), dtype=int)) if i % 2 == 0 else np.eye(n, dtype=bool))   # integer / bool typed workloads
         elif kd == 'row':
             out.append(np.arange(1.0, n + 1.0)[None, :] * (0.5 if i % 2 == 0 else -2.0))   # one row, all entries non-zero, not the all-ones row
         else:
@@ -193,7 +197,7 @@ def apply_op(w, m, op, tier, acc):
     elif op == 'krondot' and getattr(w, 'vclass', '') == 'x400':
         pass   # krondot works in probability space (exp of the potentials): magnitudes beyond ~700 overflow by design; C02 has no magnitude clause
     elif op == 'krondot':
-        kinds = ['mixed', 'identity', 'ones', 'prefix', 'generic', 'row', [['row', 'identity', 'ones', 'row', 'prefix'][j % 5] for j in range(len(attrs))]]
+        kinds = ['mixed', 'identity', 'ones', 'prefix', 'generic', 'row', 'int', [['row', 'identity', 'ones', 'row', 'prefix'][j % 5] for j in range(len(attrs))]]
         if tier == 'thorough' and len(attrs) == 3:
             kinds = kinds + [list(p) for p in itertools.product(['identity', 'ones', 'prefix', 'generic'], repeat=3)]
         src = ''.join(O.LETTERS[i] for i in range(len(attrs)))
